@@ -4,6 +4,7 @@
 //! All random choices derive from one splitmix64 state seeded with --seed (VERIF_SEED).
 mod arith_test;
 mod c01;
+mod c02;
 mod c03;
 mod c04;
 mod c08;
@@ -141,6 +142,8 @@ fn main() {
         "c18" => c01::run_c18(&mut ctx, replay_lines.as_deref()),
         "c04" => c04::run_c04(&mut ctx, replay_lines.as_deref()),
         "c05" => c04::run_c05(&mut ctx, replay_lines.as_deref()),
+        "c02" => c02::run_c02(&mut ctx, replay_lines.as_deref()),
+        "c09" => c02::run_c09(&mut ctx, replay_lines.as_deref()),
         "c03" => c03::run(&mut ctx, replay_lines.as_deref()),
         "c08" => c08::run(&mut ctx, replay_lines.as_deref()),
         "c15" => c15::run(&mut ctx, replay_lines.as_deref()),
